@@ -453,8 +453,14 @@ func (t *wal) Clear() error {
 	t.Lock()
 	defer t.Unlock()
 
+	return t.resetWithoutLock(t.currentSegment.Close())
+}
+
+// resetWithoutLock wipes the WAL directory and starts again from an empty log.
+// The caller holds the lock and has already closed the current segment.
+func (t *wal) resetWithoutLock(closeErr error) error {
 	err := multierr.Combine(
-		t.currentSegment.Close(),
+		closeErr,
 		t.readOnlySegments.Close(),
 		os.RemoveAll(t.walPath),
 	)
@@ -529,8 +535,9 @@ func (t *wal) TruncateLog(lastSafeOffset int64) (int64, error) { //nolint:revive
 			case err != nil:
 				return InvalidOffset, err
 			case segment == nil:
-				// There are no segments left
-				if err := t.Clear(); err != nil {
+				// There are no segments left. The current segment was already
+				// closed and deleted above, and we are holding the lock.
+				if err := t.resetWithoutLock(nil); err != nil {
 					return InvalidOffset, err
 				}
 				return t.LastOffset(), nil
